@@ -73,6 +73,24 @@ def run(ctx, rep):
             if ok:
                 sides = [chain.arg_side(a, p.env) for a in args]
                 ok = sides == [1, 2]
+            elif len(args) == 2:
+                # the words with the tag bits cleared, as SIGNED numbers: value * 2^shift, which orders exactly as the value does
+                tm = F.consts.get('object::TAG_MASK', {}).get('int')
+                sd = []
+                for a in args:
+                    a = uncast(a)
+                    s_ = None
+                    if tm is not None and a[0] == 'binop' and a[1] == 'BitAnd':
+                        for x, y in ((a[2], a[3]), (a[3], a[2])):
+                            m_ = int_of(y)
+                            if m_ is None and uncast(y)[0] == 'unop' and uncast(y)[1] == 'Not' and int_of(uncast(y)[2]) == tm:
+                                m_ = ~tm
+                            signed = isinstance(x, tuple) and x[0] == 'cast' and x[2] in ('isize', 'i64')
+                            if m_ is not None and (m_ == ~tm or m_ == (1 << 64) - 1 - tm) and signed:
+                                from rules.shared import is_param_word
+                                s_ = 1 if is_param_word(x, 1) else 2 if is_param_word(x, 2) else None
+                    sd.append(s_)
+                ok = sd == [1, 2]
         rep.ob(ok, 'R06.2', pc.path, 'arm covering Type::Int', 'integers must be ordered by their decoded signed values (as_int), not by the tagged words as addresses: %s' % why[:160], pc.loc())
     if not seen_int:
         rep.bad('R06.2', pc.path, 'arm covering Type::Int', 'no returning path orders integers', pc.loc())
